@@ -128,6 +128,28 @@ type File struct {
 	Enums      []*EnumDecl
 	GettersOff bool // goproto_getters_all = false
 	Imports    []string
+	// Siblings are further files of the same proto and Go package that this file imports; their
+	// messages and enums are referenced like local ones. A sibling's Name is a suffix ("common.proto")
+	// appended to this file's base name; package and file options are inherited.
+	Siblings []*File
+}
+
+// siblingFile returns sibling s completed with the inherited package, options and name.
+func (f *File) siblingFile(s *File) *File {
+	n := *s
+	n.Pkg, n.GoPackage, n.GettersOff = f.Pkg, f.GoPackage, f.GettersOff
+	n.Name = strings.TrimSuffix(f.Name, ".proto") + "_" + s.Name
+	n.Siblings = nil
+	return &n
+}
+
+// SiblingDescriptors renders the sibling files (dependencies of this file, in order).
+func (f *File) SiblingDescriptors() []*d.FileDescriptorProto {
+	var out []*d.FileDescriptorProto
+	for _, s := range f.Siblings {
+		out = append(out, f.siblingFile(s).Descriptor())
+	}
+	return out
 }
 
 func S(s string) *string { return &s }
@@ -370,6 +392,9 @@ func (f *File) Descriptor() *d.FileDescriptorProto {
 		out.Dependency = append(out.Dependency, "google/protobuf/duration.proto")
 	}
 	out.Dependency = append(out.Dependency, f.Imports...)
+	for _, sb := range f.Siblings {
+		out.Dependency = append(out.Dependency, f.siblingFile(sb).Name)
+	}
 	if f.GoPackage != "" {
 		out.Options.GoPackage = S(f.GoPackage)
 	}
